@@ -85,6 +85,12 @@ fn base_strategy() -> BoxedStrategy<(Payload, Framing)> {
             4 => gen::small_chunk_plan().prop_map(Framing::Chunked),
             1 => Just(Framing::Close),
         ]),
+        // a trailer section around the client's limit of 100 field lines: however long, a frame that is cut inside or behind it
+        // has not arrived
+        1 => (gen::small_payload(120), (gen::small_chunk_plan(), 95u8..=130).prop_map(|(mut p, t)| {
+            p.trailers = t;
+            Framing::Chunked(p)
+        })),
         // medium
         2 => (gen::payload(20_000), crate::props::c01::framing_strategy()),
         // a chunk larger than the 64 KiB internal buffer
